@@ -36,3 +36,23 @@ func TestFindingC15LateSuccessOfReplacedObject(t *testing.T) {
 		t.Fatalf("the tier must hold the set's current object (the one removal will notify), Healthy() = %p want %p", hs, h2)
 	}
 }
+
+// Finding C15.R8 (batch): one Add that names an address twice with two types.
+func TestFindingC15BatchWithOneAddressTwice(t *testing.T) {
+	main := NewWithType("127.0.0.1:7001", TypeMain)
+	backup := NewWithType("127.0.0.1:7001", TypeBackup)
+	other := NewWithType("127.0.0.1:7002", TypeBackup)
+	set := NewSet(main, backup, other)
+	// members: 7001 (backup, the later one wins) and 7002 (backup); no main host at all
+	if set.Len() != 2 {
+		t.Fatalf("members: %d", set.Len())
+	}
+	for _, h := range set.Healthy() {
+		if h == main {
+			t.Fatalf("Healthy() reports %v (type main), which is not a member of the set", h)
+		}
+	}
+	if len(set.Healthy()) != 2 {
+		t.Fatalf("Healthy() = %v, want both backup members", set.Healthy())
+	}
+}
